@@ -83,16 +83,13 @@ pub fn probe(site: Site) {
     }
 }
 
+// "The whole plane": a box so large that no coordinate in practical use lies outside it, yet finite, so that
+// tests written in terms of widths, centres or sums of its bounds stay free of infinities and NaN.
 fn whole_plane<F: Float>() -> BoundingBox<F> {
+    let far = F::max_value() / (F::one() + F::one() + F::one() + F::one());
     BoundingBox {
-        min: Coord {
-            x: F::neg_infinity(),
-            y: F::neg_infinity(),
-        },
-        max: Coord {
-            x: F::infinity(),
-            y: F::infinity(),
-        },
+        min: Coord { x: -far, y: -far },
+        max: Coord { x: far, y: far },
     }
 }
 
